@@ -484,6 +484,19 @@ func TestC07(t *testing.T) {
 		if replay && between > 0 {
 			time.Sleep(2 * time.Millisecond)
 		}
+		// A copy may reach the victim over the link of another peer.
+		if replay && c.Chance("replay.other-link", 3, 4) {
+			var other *vnet.VLink
+			for ip, l := range V.Links {
+				if l != link && (other == nil || ip.Less(other.Peer())) {
+					other = l
+				}
+			}
+			if other != nil {
+				link = other
+				c.Class("replay-over-another-peers-link")
+			}
+		}
 		before := snapshotNode(V, env.all)
 		qBefore := len(ms.vn.Queue)
 		res := ms.vn.Inject(V, link, data)
